@@ -159,9 +159,11 @@ _TAGLINE = re.compile(r'^<<"(CASE|DIFF|STAT|NOTE)", (.*)>>$')
 
 
 def parse_tagged(stdout):
-    """Lines printed by PrintT(<<"CASE"|"DIFF"|..., ..., "<json>">>). Returns list of (tag, [prefix fields], obj)."""
-    res = []
-    for line in stdout.splitlines():
+    """Lines printed by PrintT(<<"CASE"|"DIFF"|..., ..., "<json>">>). Yields (tag, [prefix fields], obj), one line at a
+    time (a thorough model check prints more than a million CASE lines: nothing here keeps them all)."""
+    import io
+    for line in io.StringIO(stdout):
+        line = line.rstrip("\r\n")
         m = _TAGLINE.match(line)
         if not m:
             continue
@@ -218,8 +220,7 @@ def parse_tagged(stdout):
             obj = json.loads(vals[-1]) if isinstance(vals[-1], str) else vals[-1]
         except ValueError:
             obj = vals[-1]
-        res.append((m.group(1), vals[:-1], obj))
-    return res
+        yield (m.group(1), vals[:-1], obj)
 
 
 class TLCResult:
